@@ -162,6 +162,24 @@ func c19History(c *ctx, start typeSpec, ops []c19Op, how string) {
 				key, detail = "len-differs-from-list", fmt.Sprintf("step %d %s: Len %d, list has %d", i, o, col.Len(), len(ref))
 				continue
 			}
+			// Resource(id) agrees with the list: present iff some element has that ID
+			for _, id := range ids {
+				inList := false
+				for j := range ref {
+					if ref[j].id == id {
+						inList = true
+						break
+					}
+				}
+				r := col.Resource(id, nil)
+				got := !(r == nil || reflect.ValueOf(r).IsNil())
+				if got != inList || (got && r.Get("id") != id) {
+					key, detail = "resource-lookup-differs-from-list", fmt.Sprintf("step %d %s: Resource(%q) found=%v, the list holds it=%v", i, o, id, got, inList)
+				}
+			}
+			if key != "" {
+				continue
+			}
 			ct := col.GetType()
 			want := typeFieldNames(ct)
 			for j := range ref {
